@@ -159,7 +159,20 @@ func TestC18(t *testing.T) {
 					sum.Add(sum, new(big.Int).SetUint64(off))
 					wantAddr = irsem.Fit(irsem.Fit(sum, aw), 8).Uint64()
 				default: // not constant
-					addr = expr.NewBinary(expr.Add, expr.NewRegLoad("x2", 8), irsem.Const(new(big.Int).SetUint64(base), 8), 8)
+					r := expr.NewRegLoad("x2", 8)
+					sh := irsem.Const(big.NewInt(int64(1+rapid.IntRange(0, 62).Draw(t, "shiftBits"))), 1)
+					switch rapid.IntRange(0, 4).Draw(t, "dynKind") {
+					case 0:
+						addr = expr.NewBinary(expr.Add, r, irsem.Const(new(big.Int).SetUint64(base), 8), 8)
+					case 1: // register shifted left by 1..63 bits: some of its bits survive
+						addr = expr.NewBinary(expr.Lsh, r, sh, 8)
+					case 2:
+						addr = expr.NewBinary(expr.Rsh, r, sh, 8)
+					case 3:
+						addr = expr.NewBinary(expr.Nand, r, irsem.Const(new(big.Int).SetUint64(base|1), 8), 8)
+					default: // a memory load
+						addr = expr.NewMemLoad(irsem.MemKeys[0], irsem.Const(new(big.Int).SetUint64(base), 8), 8)
+					}
 				}
 				v := irsem.GenExpr(t, irsem.GenCfg{MaxDepth: 1})
 				w := expr.Width(rapid.IntRange(1, 16).Draw(t, "mw"))
